@@ -268,8 +268,10 @@ impl HistMonitor for C02 {
     fn owns_divergence(&self) -> bool {
         true
     }
-    fn owns_panic(&self, _op: &Op) -> bool {
-        true
+    fn owns_panic(&self, op: &Op) -> bool {
+        // "none of these calls panics": the calls the statement names (a panicking next_id() is
+        // C07's "calls within the limits complete")
+        !matches!(op, Op::NextId)
     }
 }
 
